@@ -76,10 +76,27 @@ def gate_scan(cluster_dirs):
     return hits
 
 
+def coq_files():
+    """Every .v of the development except the Extract.v drivers and generated scratch."""
+    fs = []
+    for d in sorted(os.listdir(COQ)):
+        dd = os.path.join(COQ, d)
+        if not os.path.isdir(dd):
+            continue
+        for f in sorted(os.listdir(dd)):
+            if f.endswith('.v') and f != 'Extract.v' and not f.startswith('.') and not f.startswith('tmp_'):
+                fs.append('%s/%s' % (d, f))
+    return fs
+
+
 def ensure_makefile():
+    """_CoqProject is derived from the directory tree (one directory per cluster)."""
     mk = os.path.join(COQ, 'Makefile')
     cp = os.path.join(COQ, '_CoqProject')
-    if not os.path.exists(mk) or os.path.getmtime(mk) < os.path.getmtime(cp):
+    want = '-Q . FC\n' + '\n'.join(coq_files()) + '\n'
+    have = open(cp).read() if os.path.exists(cp) else ''
+    if want != have or not os.path.exists(mk):
+        open(cp, 'w').write(want)
         rc, out = sh(['coq_makefile', '-f', '_CoqProject', '-o', 'Makefile'], 120, cwd=COQ)
         if rc != 0:
             raise RuntimeError('coq_makefile failed: ' + out)
